@@ -179,8 +179,8 @@ def lifeCheck (cfg : Cfg) (w : Worker) : Bool :=
 /-- every worker ever created has finished -/
 def AllExited (s : St) : Prop := ∀ w ∈ s.workers, w.pc = .exited
 
-/-- the worker has left its loop for good: it has exited, or (`Cfg.joinTimeout`) it has posted its wid to the replace queue
-and has only `end()` left to run -/
+/-- the worker has left its loop for good: it has exited, or it has done what ends its loop (stop order taken, wid posted to
+the replace queue, quota of a plain pool used up, `begin()` / the functor raised) and has only `end()` left to run -/
 def gone : WPc → Bool
   | .exited | .ending => true
   | _ => false
@@ -188,7 +188,6 @@ def gone : WPc → Bool
 def lifeCheckAll (s : St) : List String :=
   (s.workers.filter (fun w => !lifeCheck s.cfg w)).map (fun w => s!"life{w.wid}") ++
   (if s.cpc == .done && !s.cfg.joinTimeout && s.workers.any (fun w => w.pc != .exited) then ["exit_joins_all"] else []) ++
-  (if s.workers.any (fun w => w.pc == .ending) && !s.cfg.joinTimeout then ["ending_only_joinTimeout"] else []) ++
   (if s.cfg.waitReady && (match s.cpc with | .enterStart _ | .readyWait _ => false | _ => true) &&
       s.workers.any (fun w => w.wid < s.cfg.nWorkers && !w.log.contains .begin) then ["ready_after_begin"] else [])
 
@@ -233,7 +232,7 @@ def liveCheck (s : St) : List String :=
   let bad (name : String) (b : Bool) : List String := if b then [] else [name]
   let cIn := match s.cpc with | .qsize2 | .getNowait | .lockRel => true | _ => false
   let started (wid : Nat) := match wpc s wid with | some .notStarted => false | some _ => true | none => false
-  -- left its loop for good (`gone`): exited, or (`Cfg.joinTimeout`) retired with only `end()` left
+  -- left its loop for good (`gone`): exited, or only `end()` left (`.ending`)
   let goneW (wid : Nat) := match wpc s wid with | some p => gone p | none => false
   -- L1 lock discipline
   bad "L1c" ((s.lock == some .c) == cIn) ++
